@@ -268,6 +268,21 @@ def weak_variants(fn: FunctionInfo, g: CFG, loop: ast.While, V: list[int]) -> li
     return W
 
 
+def _len_aliases_inlined(fn: FunctionInfo) -> FunctionInfo:
+    """a local bound once to `len(<parameter>)`, the parameter never rebound, is that (invariant) length: guards and steps written with the
+    local read like the ones written with len()"""
+    import dataclasses
+
+    from ..match import inline, single_assignments
+
+    stored = {n.id for n in ast.walk(fn.node) if isinstance(n, ast.Name) and isinstance(n.ctx, ast.Store)}
+    env = {k: v for k, v in single_assignments(fn.node).items()
+           if isinstance(v, ast.Call) and call_name(v) == "len" and len(v.args) == 1 and isinstance(v.args[0], ast.Name) and v.args[0].id in fn.params() and v.args[0].id not in stored}
+    if not env:
+        return fn
+    return dataclasses.replace(fn, node=ast.fix_missing_locations(inline(fn.node, env)))
+
+
 def r1_progress(ctx: Ctx) -> None:
     consuming = consuming_parser_functions(ctx)
     ctx.note(f"parser functions that always consume a token: {sorted(consuming)}")
@@ -278,9 +293,10 @@ def r1_progress(ctx: Ctx) -> None:
     for fn in ctx.repo.all_functions():
         if not in_scope(fn):
             continue
-        loops = [n for n in walk_no_nested(fn.node) if isinstance(n, ast.While)]
-        if not loops:
+        if not any(isinstance(n, ast.While) for n in walk_no_nested(fn.node)):
             continue
+        fn = _len_aliases_inlined(fn)
+        loops = [n for n in walk_no_nested(fn.node) if isinstance(n, ast.While)]
         g = CFG(fn.node)
         for lp in loops:
             ctx.count("while_loops")
